@@ -355,12 +355,19 @@ def cached(tag, cfg, src, run):
                 return pickle.load(fh)
         except Exception:
             pass
-    res = build_run(cfg, src, run)
-    os.makedirs(runner.CACHE, exist_ok=True)
-    tmp = key + '.tmp%d.%d' % (os.getpid(), threading.get_ident())
-    with gzip.open(tmp, 'wb') as fh:
-        pickle.dump(res, fh)
-    os.replace(tmp, key)
+    with runner.lock(os.path.basename(key)):
+        if os.path.exists(key):     # built meanwhile by a check running side by side
+            try:
+                with gzip.open(key, 'rb') as fh:
+                    return pickle.load(fh)
+            except Exception:
+                pass
+        res = build_run(cfg, src, run)
+        os.makedirs(runner.CACHE, exist_ok=True)
+        tmp = key + '.tmp%d.%d' % (os.getpid(), threading.get_ident())
+        with gzip.open(tmp, 'wb') as fh:
+            pickle.dump(res, fh)
+        os.replace(tmp, key)
     return res
 
 
